@@ -355,11 +355,11 @@ func (w *world) reconcile(pod string) (writes []write, reads int, err error) {
 // ---------------------------------------------------------------- canonical state
 
 type pgView struct {
-	Name        string              `json:"name"`
-	Labels      map[string]string   `json:"labels,omitempty"`
-	Annotations map[string]string   `json:"annotations,omitempty"`
-	Owners      []string            `json:"owners,omitempty"`
-	Spec        v2alpha2.PodGroupSpec `json:"spec"`
+	Name        string                  `json:"name"`
+	Labels      map[string]string       `json:"labels,omitempty"`
+	Annotations map[string]string       `json:"annotations,omitempty"`
+	Owners      []string                `json:"owners,omitempty"`
+	Spec        v2alpha2.PodGroupSpec   `json:"spec"`
 	Status      v2alpha2.PodGroupStatus `json:"status"`
 }
 
@@ -526,14 +526,14 @@ func foreignFields(g *pgView) map[string]string {
 func ownedView(g *pgView) map[string]string {
 	js := func(v any) string { b, _ := json.Marshal(v); return string(b) }
 	m := map[string]string{
-		"spec.minMember":          fmt.Sprint(g.Spec.MinMember),
-		"spec.priorityClassName":  g.Spec.PriorityClassName,
-		"spec.preemptibility":     string(g.Spec.Preemptibility),
-		"spec.subGroups":          js(g.Spec.SubGroups),
-		"spec.topologyConstraint": js(g.Spec.TopologyConstraint),
-		"spec.parallelism":        fmt.Sprint(g.Spec.Parallelism),
-		"spec.completions":        fmt.Sprint(g.Spec.Completions),
-		"spec.backoffLimit":       fmt.Sprint(g.Spec.BackoffLimit),
+		"spec.minMember":           fmt.Sprint(g.Spec.MinMember),
+		"spec.priorityClassName":   g.Spec.PriorityClassName,
+		"spec.preemptibility":      string(g.Spec.Preemptibility),
+		"spec.subGroups":           js(g.Spec.SubGroups),
+		"spec.topologyConstraint":  js(g.Spec.TopologyConstraint),
+		"spec.parallelism":         fmt.Sprint(g.Spec.Parallelism),
+		"spec.completions":         fmt.Sprint(g.Spec.Completions),
+		"spec.backoffLimit":        fmt.Sprint(g.Spec.BackoffLimit),
 		"metadata.ownerReferences": js(g.Owners),
 	}
 	for k, v := range g.Labels {
